@@ -15,6 +15,7 @@ variable {Val Err Op : Type}
 def Admissible (w : World Val Err Op) : Stmt Val Op → Prop
   | .op _ _ _ args => ∀ a ∈ args, ArgClean w.stat a
   | .meth _ _ args => ∀ a ∈ args, ArgClean w.stat a
+  | .meth2 _ _ args args2 => (∀ a ∈ args, ArgClean w.stat a) ∧ (∀ a ∈ args2, ArgClean w.stat a)
   | .bind _ args => ∀ a ∈ args, ArgClean w.stat a
   | .where_ c x y => ArgClean w.stat c ∧ ArgClean w.stat x ∧ ArgClean w.stat y
   | .watch n => ∀ nd, w.nodes[n]? = some nd → nd.toNStat.isW = false
@@ -369,6 +370,53 @@ theorem run_missing {S : Sem Val Err Op} {w : World Val Err Op} {n : NId} (hn : 
   | zero => simp [run]
   | succ f => simp [run, hn]
 
+theorem copyNode_missing {S : Sem Val Err Op} {w : World Val Err Op} {n : NId} (hn : w.nodes[n]? = none)
+    (fuel : Nat) : copyNode S fuel n w = (.error (if fuel = 0 then .fuel else .bad), w) := by
+  simp only [copyNode, run_missing hn]
+
+/-- rx.__call__ on an accessor node keeps the invariants (a missing accessor is a dangling reference) -/
+theorem good_callAcc {S : Sem Val Err Op} {w w' : World Val Err Op} (g : Good S w) {fuel : Nat} {c1 : NId}
+    {o : Op} {args : List (Arg Val)} {r : Res Err NId} (hclean : ∀ a ∈ args, ArgClean w.stat a)
+    (h : callAcc S fuel c1 o args w = (r, w')) (hr : r ≠ .error .fuel) (hb : r ≠ .error .bad) :
+    Good S w' ∧ Grow w w' := by
+  simp only [callAcc] at h
+  cases hn : w.nodes[c1]? with
+  | none =>
+    rw [copyNode_missing hn] at h
+    simp only [Prod.mk.injEq] at h
+    obtain ⟨rfl, _⟩ := h
+    exfalso
+    by_cases hf0 : fuel = 0
+    · simp [hf0] at hr
+    · simp [hf0] at hb
+  | some nd =>
+    cases h2 : copyNode S fuel c1 w with
+    | mk r2 w2 =>
+      simp only [h2] at h
+      cases r2 with
+      | error x =>
+        simp only [Prod.mk.injEq] at h
+        obtain ⟨rfl, rfl⟩ := h
+        obtain ⟨g2, gr2, _⟩ := good_copyNode g ⟨nd, hn⟩ h2 (fun hh => hr (by cases hh; rfl)) (fun hh => hb (by cases hh; rfl))
+        exact ⟨g2, gr2⟩
+      | ok c2 =>
+        obtain ⟨g2, gr2, hc2⟩ := good_copyNode g ⟨nd, hn⟩ h2 (by simp) (by simp)
+        simp only at h
+        obtain ⟨g3, gr3⟩ := good_deriveNode g2 (hc2 c2 rfl) (fun a ha => gr2 a (hclean a ha)) h hr hb
+        exact ⟨g3, gr2.trans gr3⟩
+
+/-- rx.__getattribute__ for a method name: `if dirty: self._resolve()` -/
+theorem good_access0 {S : Sem Val Err Op} {w w1 : World Val Err Op} (g : Good S w) {fuel : Nat} {n : NId}
+    {nd : Node Val Err Op} (hn : w.nodes[n]? = some nd) {r : Res Err Val}
+    (h : (if nd.dirty = true then run S fuel (.resolve n) w else (.ok nd.current, w)) = (r, w1))
+    (hrf : r ≠ .error .fuel) : Good S w1 ∧ Grow w w1 ∧ ∃ nd1, w1.nodes[n]? = some nd1 := by
+  split at h
+  · obtain ⟨g1, p1⟩ := good_run g (call := .resolve n) ⟨trivial, nd, hn⟩ h hrf
+    obtain ⟨nd1, h1, _⟩ := p1.stat.node hn
+    exact ⟨g1, Grow.of_staticEq p1.stat, nd1, h1⟩
+  · simp only [Prod.mk.injEq] at h; obtain ⟨_, rfl⟩ := h
+    exact ⟨g, Grow.refl _, nd, hn⟩
+
 theorem good_where {S : Sem Val Err Op} {w w3 : World Val Err Op} (g : Good S w) {c x y : Arg Val}
     {cps xr yr : List PId} {ce xe ye : Expr Val Op}
     (hadm : ArgClean w.stat c ∧ ArgClean w.stat x ∧ ArgClean w.stat y)
@@ -458,9 +506,14 @@ theorem good_where {S : Sem Val Err Op} {w w3 : World Val Err Op} (g : Good S w)
         | cons b bs => rfl
       exact ⟨yr, by simp [w2, hyr], hsub⟩
 
+/-- (H2) for one statement: an update that `Comparator.is_equal` takes for "unchanged" really stores the same value -/
+def EqOK (S : Sem Val Err Op) (w : World Val Err Op) : Stmt Val Op → Prop
+  | .set p v => S.isEqual (w.vals p) v = true → w.vals p = v
+  | _ => True
+
 /-- **every statement keeps the invariants** -/
-theorem good_step {S : Sem Val Err Op} (hEq : ∀ a b, S.isEqual a b = true → a = b) {w w' : World Val Err Op}
-    (g : Good S w) {fuel : Nat} {s : Stmt Val Op} {o : Outcome Val Err} (hadm : Admissible w s)
+theorem good_step {S : Sem Val Err Op} {w w' : World Val Err Op}
+    (g : Good S w) {fuel : Nat} {s : Stmt Val Op} {o : Outcome Val Err} (hadm : Admissible w s) (hEq : EqOK S w s)
     (h : step S fuel w s = (o, w')) (hf : o ≠ .fuel) (hbad : o ≠ .bad)
     (hset : ∀ calls e, o ≠ .set calls (some e)) : Good S w' := by
   cases s with
@@ -536,17 +589,6 @@ theorem good_step {S : Sem Val Err Op} (hEq : ∀ a b, S.isEqual a b = true → 
       | none => simp only [hn, Prod.mk.injEq] at h; exact absurd h.1.symm hbad
       | some nd =>
         simp only [hn] at h
-        -- rx.__getattribute__: `if dirty: self._resolve()`
-        have stage0 : ∀ (r : Res Err Val) (w1 : World Val Err Op),
-            (if nd.dirty = true then run S fuel (.resolve n) w else (.ok nd.current, w)) = (r, w1) →
-            r ≠ .error .fuel → Good S w1 ∧ Grow w w1 ∧ ∃ nd1, w1.nodes[n]? = some nd1 := by
-          intro r w1 hr hrf
-          split at hr
-          · obtain ⟨g1, p1⟩ := good_run g (call := .resolve n) ⟨trivial, nd, hn⟩ hr hrf
-            obtain ⟨nd1, h1, _⟩ := p1.stat.node hn
-            exact ⟨g1, Grow.of_staticEq p1.stat, nd1, h1⟩
-          · simp only [Prod.mk.injEq] at hr; obtain ⟨_, rfl⟩ := hr
-            exact ⟨g, Grow.refl _, nd, hn⟩
         cases h0 : (if nd.dirty = true then run S fuel (.resolve n) w else (.ok nd.current, w)) with
         | mk r0 w1 =>
           simp only [h0] at h
@@ -554,9 +596,9 @@ theorem good_step {S : Sem Val Err Op} (hEq : ∀ a b, S.isEqual a b = true → 
           | error x =>
             simp only [Prod.mk.injEq] at h; obtain ⟨rfl, rfl⟩ := h
             obtain ⟨a, _⟩ := outOfExn_ne hf hbad
-            exact (stage0 _ _ h0 (fun hh => a (by cases hh; rfl))).1
+            exact (good_access0 g hn h0 (fun hh => a (by cases hh; rfl))).1
           | ok cur =>
-            obtain ⟨g1, gr1, hn1⟩ := stage0 _ _ h0 (by simp)
+            obtain ⟨g1, gr1, hn1⟩ := good_access0 g hn h0 (by simp)
             simp only at h
             split at h
             · simp only [Prod.mk.injEq] at h; obtain ⟨_, rfl⟩ := h; exact g1
@@ -569,33 +611,78 @@ theorem good_step {S : Sem Val Err Op} (hEq : ∀ a b, S.isEqual a b = true → 
                   obtain ⟨a, b⟩ := outOfExn_ne hf hbad
                   exact (good_copyNode g1 hn1 h2 (fun hh => a (by cases hh; rfl)) (fun hh => b (by cases hh; rfl))).1
                 | ok c1 =>
-                  obtain ⟨g2, gr2, hc1⟩ := good_copyNode g1 hn1 h2 (by simp) (by simp)
+                  obtain ⟨g2, gr2, _⟩ := good_copyNode g1 hn1 h2 (by simp) (by simp)
                   simp only at h
-                  cases h3 : copyNode S fuel c1 w2 with
-                  | mk r3 w3 =>
+                  cases h3 : callAcc S fuel c1 oo args w2 with
+                  | mk r3 w4 =>
                     simp only [h3] at h
+                    have hcl : ∀ a ∈ args, ArgClean w2.stat a := fun a ha => gr2 a (gr1 a (hadm a ha))
                     cases r3 with
                     | error x =>
                       simp only [Prod.mk.injEq] at h; obtain ⟨rfl, rfl⟩ := h
                       obtain ⟨a, b⟩ := outOfExn_ne hf hbad
-                      exact (good_copyNode g2 (hc1 c1 rfl) h3 (fun hh => a (by cases hh; rfl))
-                        (fun hh => b (by cases hh; rfl))).1
-                    | ok c2 =>
-                      obtain ⟨g3, gr3, hc2⟩ := good_copyNode g2 (hc1 c1 rfl) h3 (by simp) (by simp)
+                      exact (good_callAcc g2 hcl h3 (fun hh => a (by cases hh; rfl)) (fun hh => b (by cases hh; rfl))).1
+                    | ok d =>
+                      simp only [Prod.mk.injEq] at h; obtain ⟨_, rfl⟩ := h
+                      exact (good_callAcc g2 hcl h3 (by simp) (by simp)).1
+  | meth2 n oo args args2 =>
+    simp only [step] at h
+    split at h
+    · simp only [Prod.mk.injEq] at h; exact absurd h.1.symm hbad
+    · cases hn : w.nodes[n]? with
+      | none => simp only [hn, Prod.mk.injEq] at h; exact absurd h.1.symm hbad
+      | some nd =>
+        simp only [hn] at h
+        cases h0 : (if nd.dirty = true then run S fuel (.resolve n) w else (.ok nd.current, w)) with
+        | mk r0 w1 =>
+          simp only [h0] at h
+          cases r0 with
+          | error x =>
+            simp only [Prod.mk.injEq] at h; obtain ⟨rfl, rfl⟩ := h
+            obtain ⟨a, _⟩ := outOfExn_ne hf hbad
+            exact (good_access0 g hn h0 (fun hh => a (by cases hh; rfl))).1
+          | ok cur =>
+            obtain ⟨g1, gr1, hn1⟩ := good_access0 g hn h0 (by simp)
+            simp only at h
+            split at h
+            · simp only [Prod.mk.injEq] at h; obtain ⟨_, rfl⟩ := h; exact g1
+            · cases h2 : copyNode S fuel n w1 with
+              | mk r2 w2 =>
+                simp only [h2] at h
+                cases r2 with
+                | error x =>
+                  simp only [Prod.mk.injEq] at h; obtain ⟨rfl, rfl⟩ := h
+                  obtain ⟨a, b⟩ := outOfExn_ne hf hbad
+                  exact (good_copyNode g1 hn1 h2 (fun hh => a (by cases hh; rfl)) (fun hh => b (by cases hh; rfl))).1
+                | ok c1 =>
+                  obtain ⟨g2, gr2, _⟩ := good_copyNode g1 hn1 h2 (by simp) (by simp)
+                  simp only at h
+                  cases h3 : callAcc S fuel c1 oo args w2 with
+                  | mk r3 w4 =>
+                    simp only [h3] at h
+                    have hcl : ∀ a ∈ args, ArgClean w2.stat a := fun a ha => gr2 a (gr1 a (hadm.1 a ha))
+                    cases r3 with
+                    | error x =>
+                      simp only [Prod.mk.injEq] at h; obtain ⟨rfl, rfl⟩ := h
+                      obtain ⟨a, b⟩ := outOfExn_ne hf hbad
+                      exact (good_callAcc g2 hcl h3 (fun hh => a (by cases hh; rfl)) (fun hh => b (by cases hh; rfl))).1
+                    | ok d =>
+                      obtain ⟨g4, gr4⟩ := good_callAcc g2 hcl h3 (by simp) (by simp)
                       simp only at h
-                      have hcl : ∀ a ∈ args, ArgClean w3.stat a := fun a ha => gr3 a (gr2 a (gr1 a (hadm a ha)))
-                      cases h4 : deriveNode S fuel c2 { op := oo, args := args, reverse := false } w3 with
-                      | mk r4 w4 =>
-                        simp only [h4] at h
-                        cases r4 with
+                      have hcl2 : ∀ a ∈ args2, ArgClean w4.stat a :=
+                        fun a ha => gr4 a (gr2 a (gr1 a (hadm.2 a ha)))
+                      cases h5 : callAcc S fuel c1 oo args2 w4 with
+                      | mk r5 w6 =>
+                        simp only [h5] at h
+                        cases r5 with
                         | error x =>
                           simp only [Prod.mk.injEq] at h; obtain ⟨rfl, rfl⟩ := h
                           obtain ⟨a, b⟩ := outOfExn_ne hf hbad
-                          exact (good_deriveNode g3 (hc2 c2 rfl) hcl h4 (fun hh => a (by cases hh; rfl))
+                          exact (good_callAcc g4 hcl2 h5 (fun hh => a (by cases hh; rfl))
                             (fun hh => b (by cases hh; rfl))).1
-                        | ok d =>
+                        | ok d2 =>
                           simp only [Prod.mk.injEq] at h; obtain ⟨_, rfl⟩ := h
-                          exact (good_deriveNode g3 (hc2 c2 rfl) hcl h4 (by simp) (by simp)).1
+                          exact (good_callAcc g4 hcl2 h5 (by simp) (by simp)).1
   | bind gg args =>
     simp only [step] at h
     cases hes : argExprs w args with
@@ -646,7 +733,7 @@ theorem good_step {S : Sem Val Err Op} (hEq : ∀ a b, S.isEqual a b = true → 
     · cases e with
       | some e => exact absurd rfl (hset calls e)
       | none =>
-        obtain ⟨st, coh, _, _⟩ := set_step hEq g.wf g.dep g.coh h
+        obtain ⟨st, coh, _, _⟩ := set_step g.wf g.dep g.coh hEq h
         exact ⟨(wf_setVal p v g.wf).of_staticEq st, (dep_setVal p v g.dep).of_staticEq st, coh,
           by rw [st.inputs, st.nparams]; exact g.inLt, by rw [st.inputs, st.trigs]; exact g.trOK,
           by rw [st.trigs, st.nparams]; exact g.trLt⟩
@@ -706,6 +793,29 @@ theorem good_step {S : Sem Val Err Op} (hEq : ∀ a b, S.isEqual a b = true → 
             · refine ⟨nd1.toNStat, stat_node (w := { w1 with consumers := _, holders := _ }) hn1, ?_, ?_⟩
               · rw [hs1]; exact hadm nd hn
               · rw [hs1]
+  | isin n cop x =>
+    simp only [step] at h
+    cases h1 : run S fuel (.resolve n) w with
+    | mk r w1 =>
+      have hw : w' = w1 := by
+        simp only [h1] at h
+        cases r with
+        | ok v =>
+          simp only at h
+          split at h <;> (simp only [Prod.mk.injEq] at h; exact h.2.symm)
+        | error x => cases x <;> (simp only [Prod.mk.injEq] at h; exact h.2.symm)
+      subst hw
+      cases hn : w.nodes[n]? with
+      | none =>
+        rw [run_missing hn] at h1
+        simp only [Prod.mk.injEq] at h1
+        rw [← h1.2]; exact g
+      | some nd =>
+        have hr : r ≠ .error .fuel := by
+          intro hr; subst hr
+          simp only [h1, Prod.mk.injEq] at h
+          exact hf h.1.symm
+        exact (good_run g (call := .resolve n) ⟨trivial, nd, hn⟩ h1 hr).1
   | readref hh =>
     simp only [step] at h
     split at h <;> (simp only [Prod.mk.injEq] at h; obtain ⟨_, rfl⟩ := h; exact g)
